@@ -20,6 +20,8 @@
 
 package compile
 
+import "sort"
+
 // Module represents a compiled Thrift module. It contains all information
 // about all known types, constants, services, and includes from the Thrift
 // file.
@@ -86,8 +88,9 @@ func (m *Module) LookupInclude(name string) (Scope, error) {
 }
 
 // Walk the module tree starting at the given module. This module and all its
-// direct and transitive dependencies will be visited exactly once in an
-// unspecified order. The walk will stop on the first error returned by `f`.
+// direct and transitive dependencies will be visited exactly once, breadth
+// first, the modules included by a module in the order of the names they are
+// included under. The walk will stop on the first error returned by `f`.
 func (m *Module) Walk(f func(*Module) error) error {
 	visited := make(map[string]struct{})
 
@@ -103,8 +106,16 @@ func (m *Module) Walk(f func(*Module) error) error {
 		}
 
 		visited[m.ThriftPath] = struct{}{}
-		for _, inc := range m.Includes {
-			toVisit = append(toVisit, inc.Module)
+		// The order is fixed: code generation numbers modules and services,
+		// and lists the root services in the request for plugins, in the
+		// order in which it visits the modules.
+		names := make([]string, 0, len(m.Includes))
+		for name := range m.Includes {
+			names = append(names, name)
+		}
+		sort.Strings(names)
+		for _, name := range names {
+			toVisit = append(toVisit, m.Includes[name].Module)
 		}
 
 		if err := f(m); err != nil {
